@@ -5,6 +5,7 @@
 //! Output: `case <id>`, then `O <kind> <nrows> {<len> i...}* F <nf> f...`, then `end`.
 mod obs;
 mod hist;
+mod sp;
 use std::io::{BufRead, Write};
 
 fn main() {
@@ -37,6 +38,7 @@ fn main() {
                 let mut o = obs::Out::new();
                 match mode {
                     "hist" => hist::run_case(&cur, &mut o),
+                    "sp" => sp::run_case(&cur, &mut o),
                     _ => {
                         eprintln!("unknown mode {}", mode);
                         std::process::exit(2);
